@@ -726,3 +726,58 @@ class PathStates:
                 if n is not None:
                     st = set(self.elem_tf(n, t) for t in st)
         return st
+
+
+def must_hold_at(fn, transfer, edge_gen=None):
+    """Generic forward must-analysis of one Boolean property.  transfer(node) -> True (established),
+    False (destroyed) or None (unchanged); edge_gen(p, s) -> True if taking CFG edge p->s establishes it.
+    Returns at(node) -> bool (property certainly holds when node is evaluated) or None (unreachable)."""
+    cfg = fn.cfg
+    out = {b: True for b in cfg.blocks}
+    inn = {b: True for b in cfg.blocks}
+
+    def run_block(b, st, upto=None):
+        for e in cfg.blocks[b]["e"][:upto]:
+            x = fn.nodes.get(e) if isinstance(e, int) else None
+            if x is not None:
+                t = transfer(x)
+                if t is not None:
+                    st = t
+        return st
+    reach = cfg.reachable()
+    changed = True
+    while changed:
+        changed = False
+        for b in cfg.blocks:
+            if b not in reach:
+                continue        # dead code (e.g. after a throw) constrains nothing
+            preds = [p for p in cfg.pred[b] if p in reach]
+            if b == cfg.entry or not preds:
+                i = False
+            else:
+                i = all(out[p] or (edge_gen is not None and edge_gen(p, b)) for p in preds)
+            st = run_block(b, i)
+            if i != inn[b] or st != out[b]:
+                inn[b], out[b] = i, st
+                changed = True
+    where = fn.where()
+
+    def at(node):
+        pos = None
+        n = node
+        if n["i"] in where:
+            pos = where[n["i"]]
+        else:
+            for a in fn.ancestors(node):
+                if a["i"] in where:
+                    pos = where[a["i"]]
+                    break
+            if pos is None:
+                for d in walk(node):
+                    if d["i"] in where:
+                        pos = where[d["i"]]
+                        break
+        if pos is None:
+            return None
+        return run_block(pos[0], inn[pos[0]], pos[1])
+    return at
